@@ -51,9 +51,9 @@ def mix_case(draw, S=None):
 
 @st.composite
 def c13_case(draw):
-    mode = draw(st.sampled_from(['mask_ro', 'part', 'part', 'mix', 'mix', 'illegal']))
+    mode = draw(st.sampled_from(['mask_ro', 'mask_ro', 'part', 'part', 'mix', 'mix', 'illegal']))
     if mode == 'mask_ro':
-        c = draw(romodel.ro_case(exact_only=True, max_cons=3, families=['box', 'l1', 'linf', 'poly', 'l2']))
+        c = draw(romodel.ro_case(exact_only=True, max_cons=3, families=['box', 'l1', 'linf', 'poly', 'l2', 'budget', 'budget']))
         if c['ny'] == 0:
             c['ny'] = 0
         return {'mode': 'mask_ro', 'ro': c}
@@ -219,7 +219,7 @@ class C13(Prop):
     assumptions = ['references as in C02/C04 (inconclusive when they do not converge)', 'tolerance 1e-6 relative (LP), 2e-4 with cone solvers']
 
     def examples(self, tier):
-        return 1000 if tier == 'quick' else 30000
+        return 2400 if tier == 'quick' else 60000
 
     def strategy(self, tier):
         return c13_case()
